@@ -91,6 +91,11 @@ def run(ck):
             ck.discard('base problem rejected by implementation')
             continue
         e0, m0 = eff(f0), np.asarray(f0['fitmask'])
+        if geom in ('rshift', 'rscale') and int(m0.sum()) <= 2:
+            # a similarity fit of two points is matched equally well by a rotation and by a reflection (exact cross
+            # determinant 0): which one is returned is decided by rounding, so parameters are not comparable
+            ck.discard('similarity fit of <= 2 retained points (rotation / reflection equally good)')
+            continue
         F0, s0 = e0[:4].reshape(2, 2), e0[4:]
         scale = float(max(np.max(np.abs(np.array(pr['xy']))), np.max(np.abs(np.array(pr['uv'])))))
         unit = 2.0 ** pr.get('log2scale', 0)
